@@ -875,6 +875,9 @@ package xmpp
 //@   callsite (*lockWriteCloser).Flush#1
 //@     after: viaFlush = true
 //@   ensures[C10] old(lwc.err) == nil ==> viaFlush
+// a closed token writer stays closed: it has given up the output lock, so every
+// later EncodeToken/Flush must be refused (they return the latched error)
+//@   ensures[C05,C10] lwc.err != nil
 
 // Reads after the input was closed fail with the input-closed error.
 //@ func (*lockReadCloser).Token
@@ -1059,16 +1062,16 @@ package xmpp
 // wire.
 //@ func (*Session).SendPresence
 //@   callsite (*Session).sendResp#1
-//@     assert[C05] arg2 != "" && (exists k int :: 0 <= k && k < len(arg4.Attr) && unq(arg4.Attr[k], "id") && arg4.Attr[k].Value == arg2)
+//@     assert[C05,C06] arg2 != "" && (exists k int :: 0 <= k && k < len(arg4.Attr) && unq(arg4.Attr[k], "id") && arg4.Attr[k].Value == arg2)
 //@   callsite foreign#*
 //@     preserves start.Attr
 //@ func (*Session).SendMessage
 //@   callsite (*Session).sendResp#1
-//@     assert[C05] arg2 != "" && (exists k int :: 0 <= k && k < len(arg4.Attr) && unq(arg4.Attr[k], "id") && arg4.Attr[k].Value == arg2)
+//@     assert[C05,C06] arg2 != "" && (exists k int :: 0 <= k && k < len(arg4.Attr) && unq(arg4.Attr[k], "id") && arg4.Attr[k].Value == arg2)
 //@   callsite foreign#*
 //@     preserves start.Attr
 //@ func (*Session).SendIQ
 //@   callsite (*Session).sendResp#1
-//@     assert[C05] arg2 != "" && (exists k int :: 0 <= k && k < len(arg4.Attr) && unq(arg4.Attr[k], "id") && arg4.Attr[k].Value == arg2)
+//@     assert[C05,C06] arg2 != "" && (exists k int :: 0 <= k && k < len(arg4.Attr) && unq(arg4.Attr[k], "id") && arg4.Attr[k].Value == arg2)
 //@   callsite foreign#*
 //@     preserves start.Attr
